@@ -99,6 +99,8 @@ def shape_flags(prog):
                 flags.add("singleton-bracket-if")
             if e == "try" and in_gen:
                 flags.add("try-in-generator")
+            if e == "try" and any(has_try(v) for k_, v in x.items() if k_ in ("body", "hs", "fin")):
+                flags.add("nested-try")
             if e == "gen":
                 in_gen = True
             if e in ("lam", "gen"):
@@ -108,6 +110,15 @@ def shape_flags(prog):
         elif isinstance(x, list):
             for v in x:
                 walk(v, top_loop, top_if, in_fun, in_gen)
+
+    def has_try(x):
+        if isinstance(x, dict):
+            if x.get("e") == "try":
+                return True
+            return any(has_try(v) for v in x.values())
+        if isinstance(x, list):
+            return any(has_try(v) for v in x)
+        return False
 
     def has_exit(x):
         if isinstance(x, dict):
